@@ -176,6 +176,7 @@ func c07CallerSets(typ, field string) (string, bool) {
 }
 
 func runC07(c *an.Ctx) {
+	c04ClonerPools(c, "C07-R1")
 	c.Floor("C07-R8", 4)
 	c06BufferLifetime(c, "C07-R8")
 	c.Inf("C07-R5", "whole-struct copies", token.NoPos, "%d whole-struct copies in package dnsmsg examined", sharedNoShallowCopy(c, "C07-R5", "dnsmsg."))
